@@ -17,6 +17,9 @@ Definition ack := (Z * Z)%type.            (* subscription id, sequence number *
 Inductive op :=
 | Start                                   (* a publish call takes the acks and sends its request *)
 | RespOk (k : Z) (sub seq : Z)            (* the k-th oldest in-flight request gets a PublishResponse *)
+| RespOkBad (k : Z) (sub seq : Z)         (* … a PublishResponse whose header carries a Bad service result:
+                                             the server received the request and the response still carries a
+                                             sequence number, so the client treats it like any PublishResponse *)
 | RespErr (k : Z).                        (* … fails: timeout, service fault, unexpected response *)
 
 Record st := {
@@ -44,6 +47,15 @@ Definition step (s : st) (o : op) : st :=
       {| pending := []; inflight := inflight s ++ [pending s];
          sent_ok := sent_ok s; received := received s |}
   | RespOk k sub seq =>
+      match inflight s with
+      | [] => s
+      | _ => let i := pick k (length (inflight s)) in
+             {| pending := pending s ++ [(sub, seq)];
+                inflight := remove_nth i (inflight s);
+                sent_ok := sent_ok s ++ [nth i (inflight s) []];
+                received := received s ++ [(sub, seq)] |}
+      end
+  | RespOkBad k sub seq =>
       match inflight s with
       | [] => s
       | _ => let i := pick k (length (inflight s)) in
@@ -140,6 +152,15 @@ Fixpoint oracle_from (avail : list ack) (infl : list (list ack)) (c : case) (out
               | None => false
               end
           | RespOk k sub seq =>
+              match infl with
+              | [] => ms_eqb seen avail && oracle_from avail infl c' out'
+              | _ => let i := pick k (length infl) in
+                     let avail' := avail ++ [(sub, seq)] in
+                     (* the new number waits to be acknowledged; the acks of the request that
+                        succeeded must not come back *)
+                     ms_eqb seen avail' && oracle_from avail' (remove_nth i infl) c' out'
+              end
+          | RespOkBad k sub seq =>
               match infl with
               | [] => ms_eqb seen avail && oracle_from avail infl c' out'
               | _ => let i := pick k (length infl) in
